@@ -73,7 +73,9 @@ GraphClasses == {"file_ok", "spec_random", "missing_file", "directory", "empty_f
                  "truncated_file", "wrong_type_file", "unknown_extension", "bad_spec", "incomplete_spec",
                  "bad_modifier", "impossible_modifier", "save_nowhere", "stdin_closed", "blank_line_file"}
 WordClasses == {"other_word", "empty"}
-FileClasses == {"missing_file", "directory", "empty_file", "garbage_file", "truncated_file"}
+FileClasses == {"missing_file", "directory", "empty_file", "garbage_file", "truncated_file",
+                \* well-formed up to some point after the first line: found out late by a reader that streams
+                "late_bad_token", "fewer_items_than_declared", "more_items_than_declared", "second_header_line"}
 ClassesOf(kind) == CASE kind = "none" -> {}
                      [] kind \in {"nat", "pos"} -> IntClasses
                      [] kind \in {"gs", "gb", "gd"} -> GraphClasses
@@ -108,9 +110,15 @@ BuildRefusals == { <<"randkcnf", "3", "2", "1">>, <<"cpls", "2", "3", "2">>, <<"
                    <<"tseitin", "5", "3">>, <<"stone", "2", "pyramid", "1", "--sparse", "3">>,
                    <<"randkxor", "4", "3", "1">>, <<"or", "2", "1", "-T", "xorcomp", "2", "3">> }
 FormatSelections == {"option_dimacs", "option_opb", "option_latex", "extension_cnf", "extension_opb", "extension_tex", "default"}
+\* ... and the same for kthlist2pebbling, whose transformation is positional (refused while it is applied)
+OtherRefusals == { <<"-i", "@gdfile", "xorcomp", "2", "5">>, <<"-i", "@gdfile", "xorcomp", "1">>,
+                   <<"-i", "@gdfile", "majcomp", "2">>, <<"-i", "@gdfile", "majcomp", "complete", "2", "4">>,
+                   <<"-i", "@gdfile", "xorcomp", "glrd", "9", "3", "2">> }
 RefusalVectors ==
     {[tool |-> t, name |-> "", valid |-> a, kinds |-> <<>>, fmt |-> f, dev |-> "build_refusal", pos |-> 0, cls |-> "",
       opts |-> {}] : t \in Tools, a \in BuildRefusals, f \in FormatSelections}
+    \cup {[tool |-> "kthlist2pebbling", name |-> "", valid |-> a, kinds |-> <<>>, fmt |-> "default", dev |-> "build_refusal",
+           pos |-> 0, cls |-> "", opts |-> {}] : a \in OtherRefusals}
 
 \* Graph constructions with every combination of small numeric arguments (0 and 1 are where the
 \* validators and the samplers meet): the sub-command is the simplest one taking that graph type.
@@ -143,7 +151,8 @@ OtherTools == { [tool |-> "cnfshuffle", sc |-> Sub("", <<"word", "file">>, <<"-i
                                                         <<"-i", "@gdfile", "xor", "2">>, {})] }
 OtherVectors ==
        UNION {{V(x.tool, x.sc, "dimacs", "none", 0, "", o) : o \in {{}} \cup {{y} : y \in x.sc.opts}} : x \in OtherTools}
-  \cup UNION {{V(x.tool, x.sc, "default", "class", 2, c, {}) : c \in FileClasses \cup {"cyclic_graph_file", "stdin_closed"}} :
+  \cup UNION {{V(x.tool, x.sc, "default", "class", 2, c, o) : c \in FileClasses \cup {"cyclic_graph_file", "stdin_closed"},
+                                                               o \in {{}} \cup {{y} : y \in x.sc.opts}} :
                  x \in OtherTools}
   \cup {V(x.tool, x.sc, "default", d, 0, "", {}) : x \in OtherTools,
             d \in {"missing_last", "extra_argument", "unknown_option", "help", "seed_word", "output_to_directory"}}
